@@ -1,5 +1,6 @@
 #!/bin/sh
 # usage: tools/confirm_seed.sh <worktree> <seed-dir> <pkg-dir-relative> <go-test-run-regex> [module-dir-relative]
+# SEED_TESTFLAGS: extra go test flags for the demo (e.g. -tags synctests, -modfile=...)
 # Confirms a seeded change in its scratch worktree: demo passes without the change, fails with it,
 # the module builds and the stable tests of the package still pass.
 wt=$1; sd=$2; pkg=$3; run=$4; mod=${5:-.}
@@ -8,9 +9,9 @@ cd $wt || exit 2
 git checkout -- . 
 demo=$(ls $sd/*test.go.txt | head -1)
 cp $demo $pkg/zz_seed_demo_test.go
-echo "--- without change:"; (cd $mod && go test -vet=off -count=1 -run "$run" ./$(realpath --relative-to=$mod $pkg)/ 2>&1 | tail -2)
+echo "--- without change:"; (cd $mod && go test $SEED_TESTFLAGS -vet=off -count=1 -run "$run" ./$(realpath --relative-to=$mod $pkg)/ 2>&1 | tail -2)
 git apply $sd/patch.diff || { echo "PATCH DOES NOT APPLY"; rm -f $pkg/zz_seed_demo_test.go; exit 1; }
-echo "--- with change:"; (cd $mod && go test -vet=off -count=1 -run "$run" ./$(realpath --relative-to=$mod $pkg)/ 2>&1 | tail -3)
+echo "--- with change:"; (cd $mod && go test $SEED_TESTFLAGS -vet=off -count=1 -run "$run" ./$(realpath --relative-to=$mod $pkg)/ 2>&1 | tail -3)
 rm -f $pkg/zz_seed_demo_test.go
 echo "--- build:"; (cd $mod && go build ./... 2>&1 | tail -2; echo "build exit $?")
 if [ "$pkg" = "pkg/kgo" ]; then
@@ -21,5 +22,5 @@ ts=sorted(set(x.split('::')[1].split('/')[0] for x in b['stable_pass'] if x.star
 print('^('+'|'.join(ts)+')\$')")
   echo "--- stable kgo tests with change:"; go test -vet=off -count=1 -run "$pat" ./pkg/kgo/ 2>&1 | tail -1
 else
-  echo "--- package tests with change:"; (cd $mod && go test -vet=off -count=1 ./$(realpath --relative-to=$mod $pkg)/ 2>&1 | tail -1)
+  echo "--- package tests with change:"; (cd $mod && go test $SEED_TESTFLAGS -vet=off -count=1 ${SEED_PKGRUN:+-run "$SEED_PKGRUN"} ./$(realpath --relative-to=$mod $pkg)/ 2>&1 | tail -1)
 fi
